@@ -2169,8 +2169,10 @@ def __multi_arity_fn_to_py_ast(  # pylint: disable=too-many-locals
 
         with (
             ctx.new_symbol_table(arity_name, is_context_boundary=True),
+            # Each arity is trampolined on its own, so `recur` re-enters this arity:
+            # whether its last argument is a rest sequence depends on this arity alone.
             ctx.new_recur_point(
-                arity.loop_id, RecurType.FN, is_variadic=node.is_variadic
+                arity.loop_id, RecurType.FN, is_variadic=arity.is_variadic
             ),
         ):
             # Allow named anonymous functions to recursively call themselves
